@@ -9,6 +9,7 @@ import itertools
 import math
 from fractions import Fraction
 
+import os
 import numpy as np
 import z3
 
@@ -53,6 +54,12 @@ def replay(r):
     thr = r.get("threshold", 0.3)
     eps, bin_size = 0.0001, 0.5
 
+    if r.get("views") == "history":
+        try:
+            fimo(motifs, X, bin_size=bin_size, eps=0.05, threshold=thr)
+        except Exception as e:
+            return True, "fimo raised %s: %s" % (type(e).__name__, e)
+
     def scan(Xt, rc):
         try:
             return fimo(motifs, Xt, bin_size=bin_size, eps=eps, threshold=thr, reverse_complement=rc)
@@ -64,7 +71,9 @@ def replay(r):
         try:
             names = ["chr2", "chr10", "chr1"][:len(seqs)]
             with open(os.path.join(d, "s.fa"), "w") as f:
-                for nm, row in zip(names, seqs):
+                for k_, (nm, row) in enumerate(zip(names, seqs)):
+                    if k_ == 1:
+                        f.write(">chrS\nA\n")
                     f.write(">%s\n%s\n" % (nm, "".join("ACGT"[c] if c >= 0 else "N" for c in row)))
             try:
                 rf_ = fimo(motifs, os.path.join(d, "s.fa"), bin_size=bin_size, eps=eps, threshold=thr)
@@ -227,6 +236,9 @@ def worker(cfg):
             kw = dict(bin_size=0.5, eps=0.0001, threshold=thr_p)
             views = cfg.get("views", "all")
             try:
+                if views == "history":
+                    # call history: the same motifs scanned earlier with another eps / bin_size must not influence this call
+                    fimo.fimo(motifs, X, reverse_complement=True, bin_size=0.5, eps=0.05, threshold=thr_p)
                 res = fimo.fimo(motifs, X, reverse_complement=True, **kw)
                 res1 = fimo.fimo(motifs, X, reverse_complement=True, dim=1, **kw) if views in ("all", "views") else None
                 cnt = fimo.fimo(motifs, X, reverse_complement=True, return_counts=True, **kw) if views in ("all", "views") else None
@@ -241,6 +253,8 @@ def worker(cfg):
                     for b in range(B):
                         codes = [ite(ch[b, p] == 0, ord("A"), ite(ch[b, p] == 1, ord("C"), ite(ch[b, p] == 2, ord("G"), ite(ch[b, p] == 3, ord("T"), ord("N"))))) for p in range(L)]
                         recs.append((names[b], SymStr(codes)))
+                    if B >= 2:
+                        recs.insert(1, ("chrS", "A"))           # a record shorter than every motif: contributes no hit, shifts no name
                     _env.FASTA_REGISTRY["sym.fa"] = recs
                     resfa = fimo.fimo(motifs, "sym.fa", reverse_complement=True, **kw)
                     resfa1 = fimo.fimo(motifs, "sym.fa", reverse_complement=True, dim=1, **kw)
@@ -287,6 +301,8 @@ def worker(cfg):
                 if isinstance(e, core.Inconclusive):
                     raise
                 m = ctx.model() if ctx.check() == z3.sat else None
+                if os.environ.get("VERIF_DEBUG"):
+                    import traceback; traceback.print_exc()
                 add("fimo:raises", "fimo raised %s: %s" % (type(e).__name__, e), rp(m))
                 return "raised"
 
@@ -324,9 +340,17 @@ def worker(cfg):
                 k0 = sorted((str(a), int(b), int(c), str(d)) for (a, b, c, e_, d, f, g) in flat0)
                 k1 = sorted((str(a), int(b), int(c), str(d)) for (a, b, c, e_, d, f, g) in flat1)
                 cl.append(k0 == k1)
+            if views == "history":
+                ld.restore()                     # module-level containers back to their state at import: a fresh process
+                fresh = fimo.fimo(motifs, X, reverse_complement=True, **kw)
+                for q in range(len(pw_list)):
+                    ra, rb = rows(res[q]), rows(fresh[q])
+                    cl.append(len(ra) == len(rb))
+                    for x_, y_ in zip(ra, rb):
+                        cl.append(s_and(*[(u == v) for u, v in zip(x_, y_)]))
             m = ctx.prove(s_and(*cl), "fields correct; counts, dim=1 and reverse-complemented input describe the same hit set")
             if m is not None:
-                add("fimo:inconsistent-views", "a reported field is wrong, or return_counts / dim=1 / reverse-complemented input do not describe the same hit set", rp(m))
+                add("fimo:inconsistent-views", "a reported field is wrong, or return_counts / dim=1 / reverse-complemented input / the same call in a fresh process do not describe the same hit set", rp(m))
             # completeness: every window of every sequence and strand is reported iff its score exceeds the score threshold
             # implied by the p-value threshold (recomputed from the module's own table construction on the concrete PWM)
             tol = Fraction(1, 10 ** 5)
@@ -374,6 +398,7 @@ def configs(tier):
     cf.append(dict(kind="glue", B=2, L=2, pwms=[pw1], threshold=0.3, views="views"))
     cf.append(dict(kind="glue", B=1, L=3, pwms=[pw1], threshold=0.3, views="fwd"))
     cf.append(dict(kind="glue", B=2, L=2, pwms=[pw1], threshold=0.3, views="fasta"))
+    cf.append(dict(kind="glue", B=1, L=3, pwms=[pw1], threshold=0.3, views="history"))
     if not q:
         cf.append(dict(kind="glue", B=1, L=4, pwms=[pw1, pw2], threshold=0.3, views="rc"))
         cf.append(dict(kind="glue", B=2, L=3, pwms=[pw2], threshold=0.4, views="all"))
